@@ -50,7 +50,17 @@ impl<T: Qcow2IoOps> Qcow2Dev<T> {
     where
         F: FnOnce(&mut Qcow2Header),
     {
-        let buf = h.serialize_to_buf()?;
+        let hdr = h.serialize_to_buf()?;
+
+        // every request has to be block aligned (offset, length and
+        // buffer), so write the block(s) holding the header: the first
+        // cluster holds nothing but header, extensions and backing name,
+        // all of which are part of `hdr`
+        let bs = 1usize << self.info.block_size_shift;
+        let mut buf = crate::helpers::Qcow2IoBuf::<u8>::new(hdr.len().div_ceil(bs) * bs);
+        buf.zero_buf();
+        buf[..hdr.len()].copy_from_slice(&hdr);
+
         if let Err(err) = self.call_write(0, &buf).await {
             rollback(h);
             return Err(err);
